@@ -9,7 +9,8 @@
 //
 // (the tree also holds default_metrics.yaml, the gateway's built-in default metrics file: never part of a payload, not backed up)
 //
-//	{"ev":"reset","case":id,"endpoint":..,"method":..,"disk":{path:tag},"tree":sha,"payload":{path:tag},"decodable":b,"b64ok":b}
+//	{"ev":"reset","case":id,"endpoint":..,"method":..,"disk":{path:tag},"tree":sha,"payload":{path:tag},"decodable":b,"badb64":[..],
+//	 "keep":b}   keep = next update of a history on the same gateway: "disk" is what the previous update left
 //	{"ev":"probe","ph":"req|resp","txn":k,"served":{flowpath:tag}}   probe transactions through the ACTIVE engine
 //	{"ev":"call"}                                                    handler invoked
 //	{"ev":"fs","op":"store|remove","path":p}                         file-system step reached (hook fs.store / fs.remove)
@@ -74,6 +75,7 @@ type Case struct {
 	BadB64   []string          `json:"badb64"`   // payload paths whose base64 text is corrupted
 	Fault    *Fault            `json:"fault"`
 	Conc     int               `json:"conc"` // >0: that many goroutines run probe transactions during the update
+	Keep     bool              `json:"keep"` // next update of a HISTORY: tree, engine and handler state stay as the previous update left them
 }
 
 type Script struct {
@@ -553,11 +555,13 @@ func (x *exec) runCase(c Case) {
 	if c.Method == "" {
 		c.Method = http.MethodPut
 	}
-	// bring disk and engine to the "old" configuration through the real loader
-	x.writeDisk(c.Disk)
 	x.inCall.Store(false)
-	if w := x.call(http.MethodPost, "/load_flows", nil); w.code != 200 {
-		vh.Die("case %d: baseline load failed: %d %s", c.ID, w.code, w.body.String())
+	if !c.Keep {
+		// bring disk and engine to the "old" configuration through the real loader
+		x.writeDisk(c.Disk)
+		if w := x.call(http.MethodPost, "/load_flows", nil); w.code != 200 {
+			vh.Die("case %d: baseline load failed: %d %s", c.ID, w.code, w.body.String())
+		}
 	}
 	disk0, tree0 := x.snapshot()
 	x.mu.Lock()
@@ -578,7 +582,7 @@ func (x *exec) runCase(c Case) {
 		fault = vh.Ev{"point": c.Fault.Point, "nth": c.Fault.Nth}
 	}
 	x.tr.Add(vh.Ev{"ev": "reset", "case": c.ID, "endpoint": c.Endpoint, "method": c.Method, "disk": disk0, "tree": tree0,
-		"payload": payload, "decodable": c.Raw == "", "badb64": badb64, "fault": fault})
+		"payload": payload, "decodable": c.Raw == "", "badb64": badb64, "fault": fault, "keep": c.Keep})
 	x.observe() // before the update
 
 	var wg sync.WaitGroup
